@@ -6,6 +6,8 @@ import ChibiVerif.Lemmas.LinkageLemmas
 
 namespace ChibiVerif.Linkage
 
+variable [Rules]
+
 /-- the name of a function object -/
 def fnName (o : Obj) : Option Name :=
   if o.isFunction then (match o.sym with | .named n => some n | .anon _ => none) else none
@@ -172,8 +174,8 @@ theorem wf_nil : WF [] :=
 theorem evolves_updFunc {gs : List Obj} (f : Name) {u : Obj → Obj} (hu : Keeps u) : Evolves gs (updFunc gs f u) :=
   Evolves.upd _ u hu Evolves.refl
 
-theorem evolves_newAnon (st : PState) (ty : ObjTy) (hi : Bool) (uses : List Sym) :
-    Evolves st.globals (newAnon st ty hi uses).1.globals :=
+theorem evolves_newAnon (cur : Option Name) (st : PState) (ty : ObjTy) (hi : Bool) (uses : List Sym) :
+    Evolves st.globals (newAnon cur st ty hi uses).1.globals :=
   Evolves.consData _ rfl rfl Evolves.refl
 
 theorem evolves_recordFnRef {cur : Option Name} {st st' : PState} {g : Name} (h : recordFnRef cur st g = .ok st') :
@@ -235,7 +237,7 @@ theorem evolves_initItems {cur : Option Name} : ∀ (items : List InitItem) {st 
       · rename_i p2 h2
         simp only [pure, Except.pure, Except.ok.injEq, Prod.mk.injEq] at h
         rw [← h.1]
-        exact (evolves_newAnon st (strTy n) true []).trans (ih (by simpa using h2))
+        exact (evolves_newAnon cur st (strTy n) true []).trans (ih (by simpa using h2))
 
 theorem keeps_setUses (uses : List Sym) : Keeps (fun o => { o with uses := uses }) := fun _ => ⟨rfl, rfl, rfl, rfl⟩
 
@@ -252,10 +254,10 @@ theorem evolves_bodyItem {f : Name} {st st' : PState} {b : BodyItem} {us : List 
       exact evolves_useRef (st' := p1.1) (s := p1.2) (by simpa using h1)
   | staticLocal tls ty init =>
     have e1 : Evolves st.globals
-        ({ (newAnon st ty init.isSome).1 with
-            globals := updFirst (fun o => o.sym == (newAnon st ty init.isSome).2 && !o.isFunction) (fun o => { o with isTls := tls })
-              (newAnon st ty init.isSome).1.globals } : PState).globals :=
-      Evolves.upd _ _ (fun _ => ⟨rfl, rfl, rfl, rfl⟩) (evolves_newAnon st ty init.isSome [])
+        ({ (newAnon (some f) st ty init.isSome).1 with
+            globals := updFirst (fun o => o.sym == (newAnon (some f) st ty init.isSome).2 && !o.isFunction) (fun o => { o with isTls := tls })
+              (newAnon (some f) st ty init.isSome).1.globals } : PState).globals :=
+      Evolves.upd _ _ (fun _ => ⟨rfl, rfl, rfl, rfl⟩) (evolves_newAnon (some f) st ty init.isSome [])
     cases init with
     | none =>
       simp only [bodyItem, pure, Except.pure, Except.ok.injEq, Prod.mk.injEq] at h
@@ -273,7 +275,7 @@ theorem evolves_bodyItem {f : Name} {st st' : PState} {b : BodyItem} {us : List 
   | str n =>
     simp only [bodyItem, pure, Except.pure, Except.ok.injEq, Prod.mk.injEq] at h
     rw [← h.1]
-    exact evolves_newAnon st (strTy n) true []
+    exact evolves_newAnon (some f) st (strTy n) true []
   | externObj x tls ty =>
     simp only [bodyItem, pure, Except.pure, Except.ok.injEq, Prod.mk.injEq] at h
     rw [← h.1]
@@ -300,10 +302,20 @@ theorem evolves_bodyItems {f : Name} : ∀ (items : List BodyItem) {st st' : PSt
         rw [← h.1]
         exact (evolves_bodyItem (st' := p1.1) (us := p1.2) (by simpa using h1)).trans (ih (by simpa using h2))
 
-theorem keeps_rootIf : Keeps (fun o : Obj => if !(o.isStatic && o.isInline) then { o with isRoot := true } else o) := by
+theorem keeps_rootIf : Keeps rootIfO := by
   intro o
-  dsimp only
-  split <;> exact ⟨rfl, rfl, rfl, rfl⟩
+  unfold rootIfO
+  split
+  · exact ⟨rfl, rfl, rfl, rfl⟩
+  · split <;> exact ⟨rfl, rfl, rfl, rfl⟩
+
+theorem keeps_redeclFlags (e i : Bool) : Keeps (redeclFlags e i) := by
+  intro o
+  unfold redeclFlags
+  split
+  · dsimp only
+    split <;> split <;> exact ⟨rfl, rfl, rfl, rfl⟩
+  · exact ⟨rfl, rfl, rfl, rfl⟩
 
 theorem evolves_declFunctionHead {st st' : PState} {f : Name} {s e i b : Bool}
     (h : declFunctionHead st f s e i b = .ok st') : Evolves st.globals st'.globals := by
@@ -314,7 +326,7 @@ theorem evolves_declFunctionHead {st st' : PState} {f : Name} {s e i b : Bool}
     · split at h
       · cases h
       · cases h
-        exact Evolves.upd _ _ keeps_rootIf (evolves_updFunc _ (fun _ => ⟨rfl, rfl, rfl, rfl⟩))
+        exact Evolves.upd _ _ keeps_rootIf (Evolves.upd _ _ (fun _ => ⟨rfl, rfl, rfl, rfl⟩) (evolves_updFunc _ (keeps_redeclFlags _ _)))
   · rename_i hfn
     cases h
     exact Evolves.upd _ _ keeps_rootIf (Evolves.consFn _ f rfl rfl rfl rfl hfn Evolves.refl)
